@@ -80,6 +80,10 @@ def pool():
         calls.append({"op": "dump_one", "fmt": fmt, "variant": "all_bond_types"})  # canary: bond tables
     for fmt in ("fchk", "molden", "molekel", "wfn", "wfx"):
         calls.append({"op": "dump_one", "fmt": fmt, "variant": "foreign_conventions"})  # canary: conventions
+    # canaries: shell types a format has no ordering for (Cartesian h, pure i), in two source orderings
+    for fmt in ("fchk", "molden", "molekel", "wfn", "wfx"):
+        for variant in ("high_l_cartesian_horton", "high_l_cartesian_fchk", "high_l_pure"):
+            calls.append({"op": "dump_one", "fmt": fmt, "variant": variant})
     for fmt in ("xyz", "pdb", "mol2", "sdf"):
         calls.append({"op": "dump_many", "fmt": fmt})
     for prog in ("gaussian", "orca"):
@@ -112,6 +116,11 @@ def build_object(fmt, variant):
     elif variant == "foreign_conventions":
         spec = c08.wf_spec(fmt, cons=[[[0, "c"]], [[2, "c"]], [[1, "c"]]])
         spec["basis"]["conv"] = "CCA"
+        data = OBJ.build(spec)["data"]
+    elif variant.startswith("high_l"):
+        cons = [[[0, "c"]], [[6, "p"]]] if variant == "high_l_pure" else [[[0, "c"]], [[5, "c"]]]
+        spec = c08.wf_spec(fmt, cons=cons)
+        spec["basis"]["conv"] = "fchk" if variant.endswith("fchk") else "HORTON2"
         data = OBJ.build(spec)["data"]
     elif variant == "missing_atcoords":
         data.atcoords = None
